@@ -149,7 +149,11 @@ impl Ord for Number {
         if self.value < other.value {
             Ordering::Less
         } else if self.value == other.value {
-            Ordering::Equal
+            // Numbers of equal magnitude but different units are not equal:
+            // order them by unit so that `cmp` agrees with `eq`.
+            self.unit
+                .map(|unit| unit.name())
+                .cmp(&other.unit.map(|unit| unit.name()))
         } else {
             Ordering::Greater
         }
